@@ -1,7 +1,10 @@
 (* Misc/LockSpec.v — what "one live instance per database directory" means on the model of
-   Misc/Lock.v, for a code variant v (pinned / fixed / fixed_dirs / fixed_drop).  All statements quantify over
-   arbitrary (unbounded) sequences of micro operations: every interleaving of the steps of any
-   number of openers in any number of processes, with close / drop / process death anywhere. *)
+   Misc/Lock.v, for a code variant v (pinned / fixed / fixed_dirs / fixed_drop / restore_unlinks).  All statements
+   quantify over arbitrary (unbounded) sequences of micro operations: every interleaving of the steps of any
+   number of openers in any number of processes, with close / drop / process death and the directory-rewriting
+   operations of live stores (checkpoint, restore) anywhere.
+   `lock_owner s` = the owner of the advisory lock on the inode that the NAME <dir>/LOCK denotes in s — the lock a
+   new opener runs into; the kernel's table st_flock is per inode. *)
 From Coq Require Import List Bool Arith.
 From SKV Require Import Misc.Lock.
 Import ListNotations.
@@ -9,14 +12,14 @@ Import ListNotations.
 (* an opener that may read or write the store's files: from the granted lock until its release *)
 Definition critical (p : pc) : bool :=
   match p with
-  | PLocked | PCleared | PCloned | PWritten | PLive | PClosing | PDropping | PDropClosing | PDetached => true
+  | PLocked | PCleared | PCloned | PWritten | PLive | PRestoring | PClosing | PDropping | PDropClosing | PDetached => true
   | PStart | PValidated | PDirs | POpened | PClosed => false
   end.
 Definition in_critical (s : state) (o : oid) : bool :=
   match st_op s o with Some r => critical (o_pc r) | None => false end.
 
 (* 1. never two holders: at any moment at most one opener is between lock and release, and it is
-      the one the kernel's lock table names *)
+      the one the kernel's lock table names for the inode called LOCK *)
 Definition mutual_exclusion_stmt (v : variant) : Prop :=
   forall (ops : list op) (o1 o2 : oid),
     let s := run v ops s0 in
@@ -24,7 +27,7 @@ Definition mutual_exclusion_stmt (v : variant) : Prop :=
 Definition holder_is_flock_owner_stmt (v : variant) : Prop :=
   forall (ops : list op) (o : oid),
     let s := run v ops s0 in
-    in_critical s o = true -> st_flock s = Some o.
+    in_critical s o = true -> lock_owner s = Some o.
 
 (* 2. after close / drop (inside a runtime) / death of the holder's process, the next open succeeds *)
 Definition releases (o : oid) (p : proc) : list (list op) := [close_ops o; drop_ops o; [OKill p]].
@@ -36,21 +39,21 @@ Definition release_reopens_stmt (v : variant) : Prop :=
     let s1 := run v rel s in
     st_op s1 o' = None -> op_valid opts' = true ->
     let s2 := run v (open_ops o' p' opts') s1 in
-    is_live s2 o' = true /\ st_flock s2 = Some o'.
+    is_live s2 o' = true /\ lock_owner s2 = Some o'.
 (* more generally: whenever nobody owns the lock, an open with valid options succeeds *)
 Definition free_open_succeeds_stmt (v : variant) : Prop :=
   forall (ops : list op) (o' : oid) (p' : proc) (opts' : oopts),
     let s := run v ops s0 in
-    st_flock s = None -> st_op s o' = None -> op_valid opts' = true ->
+    lock_owner s = None -> st_op s o' = None -> op_valid opts' = true ->
     let s2 := run v (open_ops o' p' opts') s in
-    is_live s2 o' = true /\ st_flock s2 = Some o'.
+    is_live s2 o' = true /\ lock_owner s2 = Some o'.
 (* ... and while somebody owns it, an open fails *)
 Definition held_open_refused_stmt (v : variant) : Prop :=
   forall (ops : list op) (h o' : oid) (p' : proc) (opts' : oopts),
     let s := run v ops s0 in
-    st_flock s = Some h -> st_op s o' = None ->
+    lock_owner s = Some h -> st_op s o' = None ->
     let s2 := run v (open_ops o' p' opts') s in
-    st_op s2 o' = None /\ st_flock s2 = Some h.
+    st_op s2 o' = None /\ lock_owner s2 = Some h.
 (* the same for a Tree dropped on a thread outside any tokio runtime: once drop() has returned
    (drop_detached_ops: the whole call) the next open succeeds — no ORuntimeGone, i.e. without waiting
    for any runtime to be shut down.  Holds for the repaired code (F28), fails for the code before it
@@ -63,7 +66,7 @@ Definition detached_drop_reopens_stmt (v : variant) : Prop :=
     let s1 := run v (drop_detached_ops o) s in
     st_op s1 o' = None -> op_valid opts' = true ->
     let s2 := run v (open_ops o' p' opts') s1 in
-    is_live s2 o' = true /\ st_flock s2 = Some o'.
+    is_live s2 o' = true /\ lock_owner s2 = Some o'.
 (* the statement as it stood before the repair (one micro operation, liveness only) *)
 Definition detached_drop_reopens_old_stmt (v : variant) : Prop :=
   forall (ops : list op) (o : oid) (r : opener) (o' : oid) (p' : proc) (opts' : oopts),
@@ -79,7 +82,7 @@ Definition detached_drop_releases_stmt (v : variant) : Prop :=
     let s := run v ops s0 in
     st_op s o = Some r -> o_pc r = PLive ->
     let s1 := run v (drop_detached_ops o) s in
-    st_op s1 o = None /\ st_flock s1 = None /\
+    st_op s1 o = None /\ lock_owner s1 = None /\ st_flock s1 = [] /\
     st_log s1 = st_log s ++ [EvData o KShutdown; EvRelease o; EvGone o].
 (* the state "dropped, store kept alive by its background tasks" does not exist any more, under any
    interleaving; hence the shutdown of a runtime never changes anything *)
@@ -104,7 +107,7 @@ Definition scan_ev (a : option (option oid)) (e : event) : option (option oid) :
   end.
 Definition scan (l : list event) : option (option oid) := fold_left scan_ev l (Some None).
 Definition data_inside_lock_stmt (v : variant) : Prop :=
-  forall ops : list op, let s := run v ops s0 in scan (st_log s) = Some (st_flock s).
+  forall ops : list op, let s := run v ops s0 in scan (st_log s) = Some (lock_owner s).
 (* the same read off the log directly: a recovery (or any data) event of o is preceded by a lock
    grant to o with no release of o in between *)
 Definition lock_before_recovery_stmt (v : variant) : Prop :=
@@ -147,9 +150,10 @@ Definition refused_open_outside_known_stmt (v : variant) : Prop :=
     st_op s' o = None ->
     f_data (st_fs s') = f_data (st_fs s) /\ filter is_data (st_log s') = filter is_data (st_log s) /\
     (f_lock (st_fs s') = f_lock (st_fs s) \/ f_lock (st_fs s') = LEmpty) /\
+    f_lock_ino (st_fs s') = f_lock_ino (st_fs s) /\
     f_base (st_fs s') = f_base (st_fs s) /\ dirs_le (st_fs s) (st_fs s') = true /\
     (wanted_present (st_fs s) opts = true -> dirs_eqb (st_fs s) (st_fs s') = true) /\
-    st_flock s' = st_flock s.
+    st_flock s' = st_flock s /\ lock_owner s' = lock_owner s.
 
 (* 4', for all interleavings: while some opener owns the lock, no OTHER opener changes anything
    in the directory tree (events flagged changed = true) *)
@@ -160,7 +164,7 @@ Definition quiet_ev (a : option (option oid)) (e : event) : option (option oid) 
     match e with
     | EvAcquire o => Some (Some o)
     | EvRelease o => Some None
-    | EvMkdir o true | EvLockOpen o true =>
+    | EvMkdir o true | EvLockOpen o true | EvLockUnlink o =>
       match h with Some x => if Nat.eqb x o then Some h else None | None => Some h end
     | _ => Some h
     end
@@ -174,3 +178,40 @@ Definition same_layout (vl vr : bool) (ops : list op) : Prop :=
   forall o p opts, In (OBegin o p opts) ops -> op_vlog opts = vl /\ op_ver opts = vr.
 Definition no_foreign_modification_same_layout_stmt (v : variant) : Prop :=
   forall (vl vr : bool) (ops : list op), same_layout vl vr ops -> quiet (st_log (run v ops s0)) = true.
+
+(* 5. the directory-rewriting operations of a LIVE store.  A restore (the whole call: restore_ops) leaves the store
+      live and the owner of the lock on the inode called LOCK; the name, its inode (the one the holder opened and
+      locked) and its content are what they were; a new opener is refused and changes nothing of that *)
+Definition restore_keeps_lock_stmt (v : variant) : Prop :=
+  forall (ops : list op) (o : oid) (r : opener) (o' : oid) (p' : proc) (opts' : oopts),
+    let s := run v ops s0 in
+    st_op s o = Some r -> o_pc r = PLive ->
+    let s1 := run v (restore_ops o) s in
+    is_live s1 o = true /\ lock_owner s1 = Some o /\ st_flock s1 = st_flock s /\
+    f_lock (st_fs s1) <> LAbsent /\ f_lock (st_fs s1) = f_lock (st_fs s) /\
+    f_lock_ino (st_fs s1) = f_lock_ino (st_fs s) /\ f_lock_ino (st_fs s1) = o_ino r /\
+    (st_op s1 o' = None ->
+     let s2 := run v (open_ops o' p' opts') s1 in
+     st_op s2 o' = None /\ is_live s2 o = true /\ lock_owner s2 = Some o).
+(* the same at every moment of every interleaving (so also between the two halves of a restore, and with other
+   openers' steps, commits, checkpoints and deaths in between): every opener that has opened LOCK — in particular
+   the holder — has the inode that the name LOCK denotes now; the name is never missing again once an opener got
+   that far *)
+Definition lock_name_stable_stmt (v : variant) : Prop :=
+  forall (ops : list op) (o : oid) (r : opener),
+    let s := run v ops s0 in
+    st_op s o = Some r ->
+    match o_pc r with PStart | PValidated | PDirs => True
+    | _ => f_lock (st_fs s) <> LAbsent /\ f_lock_ino (st_fs s) = o_ino r end.
+(* the kernel holds at most one lock, and it is on the inode called LOCK *)
+Definition single_lock_stmt (v : variant) : Prop :=
+  forall (ops : list op),
+    let s := run v ops s0 in
+    st_flock s = match lock_owner s with Some h => [(f_lock_ino (st_fs s), h)] | None => [] end.
+(* a checkpoint changes neither LOCK nor the lock table nor any opener *)
+Definition checkpoint_keeps_lock_stmt (v : variant) : Prop :=
+  forall (ops : list op) (o : oid),
+    let s := run v ops s0 in
+    let s1 := run v [OCheckpoint o] s in
+    st_op s1 = st_op s /\ st_flock s1 = st_flock s /\ lock_owner s1 = lock_owner s /\
+    f_lock (st_fs s1) = f_lock (st_fs s) /\ f_lock_ino (st_fs s1) = f_lock_ino (st_fs s) /\ dirs_eqb (st_fs s) (st_fs s1) = true.
